@@ -3,8 +3,9 @@
 Generated: REQUIRED_USE strings from random trees (||, ^^, ??, all-of, (negated) conditionals,
 negated flags; depth <= 3, <= 5 flags a..e) parsed through ebuild_src.base.required_use with
 EAPI 8 (the call the test-suite and pkgcheck use); for each constraint every subset of its
-flags plus one unused flag as IUSE, with force_true / force_false (disjoint, force_true within
-IUSE - the solver's precondition) and prefer_true sets derived from three random masks.
+flags plus one unused flag as IUSE, with force_true / force_false (disjoint - the solver's
+precondition; force_true may name flags outside the IUSE subset, which then must stay off) and
+prefer_true sets derived from three random masks.
 
 Oracle: brute force over all assignments of IUSE (flags outside IUSE off, forced values fixed)
 with the independent reader of vf/gen/depsets.py (unmet conditionals vanish, emptied groups
@@ -15,8 +16,8 @@ assignment, (exactly once) hold no duplicates, (preference) start with the prefe
 whenever that one satisfies.  Assignments on which the two defensible readings of an emptied
 group directly inside || ^^ ?? differ are don't-care (neither required nor forbidden).
 
-Simplified w.r.t. DESIGN.md: nothing dropped; force_true is kept inside IUSE (the statement's
-"forced-on stays on" and "outside IUSE stays off" contradict each other otherwise).
+Simplified w.r.t. DESIGN.md: nothing dropped.  A flag forced on but missing from IUSE is read as
+"outside IUSE": off in every produced assignment (the solver intersects force_true with iuse).
 """
 from hypothesis import strategies as st
 
@@ -35,15 +36,15 @@ LEVEL_TEXT = (
 )
 LEVEL_NOTE = "Trusted: vf/gen/depsets.py reduce_tree/sat (PMS reading of REQUIRED_USE). No proof of absence."
 RULE = (
-    "constraint = random tree (depth<=3, <=8 leaves, flags a..e, operators || ^^ ?? ( ) f? !f? !f) rendered to text and "
+    "constraint = random tree (depth<=4, <=8 leaves, flags a..e, operators || ^^ ?? ( ) f? !f? !f) rendered to text and "
     "parsed via ebuild_src.base.required_use (EAPI 8); IUSE = each subset of the constraint's flags + unused flag 'u'; "
-    "force_true/force_false/prefer_true from 3 random masks (force_true within IUSE, forced sets disjoint). one evaluation = "
+    "force_true/force_false/prefer_true from 3 random masks over all flags (forced sets disjoint; forced-on flags outside IUSE must stay off). one evaluation = "
     "one solver call compared with brute force. non-trivial = constraint has an operator or conditional node and, for this "
     "IUSE/forcing, >=2 satisfying and >=1 unsatisfying assignment; distinct = distinct (string, iuse, forced, preferred)"
 )
 ASSUMPTIONS = [
     "reference reading of REQUIRED_USE: unmet conditionals vanish, emptied groups vanish; assignments where 'emptied group inside || ^^ ?? counts as satisfied' would differ are not judged",
-    "force_true within IUSE and force_true, force_false disjoint (solver precondition: it asserts otherwise)",
+    "force_true, force_false disjoint (solver precondition: it asserts otherwise); a forced-on flag outside IUSE counts as outside IUSE (off)",
     "a solution dict may omit flags (read as off)",
 ]
 BUDGET = {"quick": 50, "thorough": 900}
@@ -109,8 +110,12 @@ def check_one(ctx, s, tree, restricts, iuse, ft, ff, pt, record=True):
     E = env()
     case = {"s": s, "iuse": iuse, "force_true": ft, "force_false": ff, "prefer_true": pt}
     flags = sorted(tree_flags(tree) | set(iuse))
+    # statement: forced-on flags stay on, forced-off flags *and flags outside IUSE* stay off; a flag
+    # that is forced on but not in IUSE is outside IUSE, hence off (the solver intersects with iuse)
+    ft_in = [f for f in ft if f in iuse]
+    ft_out = [f for f in ft if f not in iuse]
     free = [f for f in iuse if f not in ft and f not in ff]
-    base_on = frozenset(ft)
+    base_on = frozenset(ft_in)
     want, dontcare, nunsat = set(), set(), 0
     for sub in D.subsets(free):
         on = base_on | sub
@@ -122,10 +127,15 @@ def check_one(ctx, s, tree, restricts, iuse, ft, ff, pt, record=True):
         else:
             nunsat += 1
     has_op = any(nd[0] != "leaf" for nd, _, _ in D.walk(tree))
+    tree_classes = D.classify(tree, "required_use")
     if record:
         cl = ["iuse_full" if set(iuse) >= tree_flags(tree) else "iuse_partial"]
         if ft:
             cl.append("force_true")
+        if ft_out:
+            cl.append("force_true_outside_iuse")
+        if "nested_conditional_in_choice_group" in tree_classes:
+            cl.append("nested_conditional_in_choice_group")
         if ff:
             cl.append("force_false")
         if pt:
@@ -152,8 +162,8 @@ def check_one(ctx, s, tree, restricts, iuse, ft, ff, pt, record=True):
         bad = sorted(on - set(iuse))
         if bad:
             ctx.violation("sound:flag-outside-iuse-on", case, f"solution {sorted(on)} enables {bad} which are not in IUSE {iuse}")
-        if not set(ft) <= on:
-            ctx.violation("sound:forced-on-flag-off", case, f"solution {sorted(on)} drops forced-on {sorted(set(ft) - on)}")
+        if not set(ft_in) <= on:
+            ctx.violation("sound:forced-on-flag-off", case, f"solution {sorted(on)} drops forced-on {sorted(set(ft_in) - on)}")
         if on & set(ff):
             ctx.violation("sound:forced-off-flag-on", case, f"solution {sorted(on)} enables forced-off {sorted(on & set(ff))}")
         if on in seen:
@@ -172,7 +182,7 @@ def check_one(ctx, s, tree, restricts, iuse, ft, ff, pt, record=True):
         m = min(missing, key=lambda x: (len(x), sorted(x)))
         ctx.violation(f"complete:missing-solution:{cause}", case,
                       f"{len(missing)} satisfying assignment(s) never produced, e.g. {sorted(m)} for {s!r} (got {len(sols)} solutions)")
-    pref = frozenset(ft) | (frozenset(pt) & frozenset(iuse)) - frozenset(ff)
+    pref = frozenset(ft_in) | (frozenset(pt) & frozenset(iuse)) - frozenset(ff)
     if ref_value(tree, pref) is True:
         if not got or got[0] != pref:
             first = sorted(got[0]) if got else None
@@ -202,7 +212,7 @@ def check_constraint(ctx, case):
     m_ft, m_ff, m_pt = case["masks"]
     for sub in D.subsets(flags):
         iuse = sorted(sub | {EXTRA})
-        ft = [f for f in _mask(allf, m_ft) if f in iuse]
+        ft = _mask(allf, m_ft)  # may name flags outside this IUSE subset
         ff = [f for f in _mask(allf, m_ff) if f not in ft]
         pt = _mask(allf, m_pt)
         check_one(ctx, s, tree, restricts, iuse, ft, ff, pt)
@@ -214,7 +224,7 @@ def build_case(n):
     rnd = random.Random(n)
     nflags = rnd.randint(1, 5)
     pool = list(D.RU_FLAGS[:nflags])
-    nodes = D.gen_tree(rnd, "required_use", max_depth=3, max_leaves=8, flags=pool, leaf_pool=pool, max_top=3)
+    nodes = D.gen_tree(rnd, "required_use", max_depth=4, max_leaves=8, flags=pool, leaf_pool=pool, max_top=3)
     s = " ".join(D.render_words(nodes))
     # forced sets are sparse (most flags free), preferred any subset
     bits = nflags + 1
@@ -227,7 +237,7 @@ def build_case(n):
 
 
 def plan(tier, seed):
-    n = {"quick": 300, "thorough": 40000}[tier]
+    n = {"quick": 200, "thorough": 30000}[tier]
     ntasks = {"quick": 8, "thorough": 16}[tier]
     return [{"task": "gen", "constraints": n} for _ in range(ntasks)]
 
@@ -295,8 +305,6 @@ def shrink_case(ctx, bucket, case):
         for k in ("prefer_true", "force_false", "force_true", "iuse"):
             for x in list(best[k]):
                 c = dict(best, **{k: [y for y in best[k] if y != x]})
-                if k == "iuse":
-                    c["force_true"] = [y for y in c["force_true"] if y != x]
                 if still(c):
                     best, changed = c, True
                     break
